@@ -10,5 +10,6 @@ class Trashee(NamedTuple('FileToBeTrashed', [
 
 
 def should_skipped_by_specs(path):
-    basename = os.path.basename(path)
+    # './' and '../' (and 'dir/./') name the dot entries too
+    basename = os.path.basename(path.rstrip(os.path.sep))
     return (basename == ".") or (basename == "..")
